@@ -144,6 +144,7 @@ type JournalEntry struct {
 	Changes    []RowChange // ground-truth row diff of this command (in transaction scope)
 	Committed  []RowChange // rows made durable by this command (COMMIT / autocommit / XA COMMIT / implicit commit)
 	Matched    []string    // pk keys of the rows the statement's WHERE/ORDER/LIMIT selected (DML and locking reads)
+	MatchedRows [][]interface{} // pre-statement content of those rows (same order as Matched)
 	InTxBefore bool
 	InTxAfter  bool
 	NRows      int
